@@ -211,3 +211,23 @@ CHECKS["C03"] = {
     "outside": "duration thresholds, time quota, event-based IEs (not supported by the driver); the URR_MEASUREMENT_PERIOD netlink attribute value (nanoseconds truncated to 32 bits, marked TODO in the code) is only width-checked; IE lengths other than nominal (C07)",
     "assumptions": FWD_ASSUME + ["spare bits of Gate Status, QFI, RQI, PPI, Measurement Method are zero (well-formed IEs)"],
 }
+
+FWD_MODELS = {
+    "net.ParseCIDR": "github.com/free5gc/go-upf/internal/forwarder.zzModelParseCIDR",
+    "net.ParseIP": "github.com/free5gc/go-upf/internal/forwarder.zzModelParseIP",
+}
+
+CHECKS["C16"] = {
+    "dep_overlays": NL_OV, "extra_pkgs": ["internal/forwarder/perio"], "models": FWD_MODELS,
+    "jobs": {
+        "quick": [{"pkg": "internal/forwarder", "entries": ["ZZ_C16_*"], "witnesses": 6, "max_paths": 300000, "budget_s": 900}],
+        "thorough": [{"pkg": "internal/forwarder", "entries": ["ZZ_C16_*"], "witnesses": 12, "max_paths": 3000000, "budget_s": 3000}],
+    },
+    "covers": {"all": ["ZZ_C16_Templates:C16.translated", "ZZ_C16_Templates:C16.rejected", "ZZ_C16_NearMiss:C16.nearmiss.done", "ZZ_C16_Bytes:C16.bytes.done"]},
+    "bounds": {
+        "quick": "24 rule templates (keywords fixed, every decimal digit symbolic): both directions, 'ip' or 1-3 protocol digits, addresses any/assigned/host/prefix with 1-3 digits per octet and 1-2 prefix digits, port lists of 0-2 items with 1-5 digits each, single/multiple blanks and tabs, each for uplink and downlink; near-miss keywords of 1-4 symbolic printable bytes at each of 4 keyword positions; arbitrary ASCII strings of <= 6 bytes",
+        "thorough": "plus all pairs of digit counts for two octets and the prefix length, two 8-item port lists, arbitrary strings of <= 8 bytes",
+    },
+    "outside": "IPv6 addresses, digit-count combinations not listed, non-ASCII bytes, free strings longer than 8 bytes; 'deny' rules (the driver supports permit only)",
+    "assumptions": FWD_ASSUME + ["net.ParseCIDR/net.ParseIP replaced in the engine by Go-source models (harness/internal/forwarder/zz_models.go) when their argument is symbolic; native replay uses the real functions (differential test on every witness)"],
+}
